@@ -63,8 +63,8 @@ ASSUMPTIONS = [
     "schemas), InlinePass, RemoveUnusedFunctionsPass, RemoveUnusedOpsetsPass, and the schema-driven optional-output "
     "trimming inside RemoveUnusedNodesPass (the correspondence runs that pass with _remove_unused_optional_outputs "
     "disabled; the oracle runs the real pass)",
-    "not compared with the model (counted as corr_skipped): CSE on nodes with string-tensor attributes and "
-    "DeduplicateHashedInitializers with string initializers (keys built from object addresses), "
+    "not compared with the model (counted as corr_skipped): DeduplicateHashedInitializers with string initializers "
+    "(digest taken over object addresses), "
     "RemoveUnusedNodes after an earlier pass of the same sequence left uses registered by detached subgraph nodes",
     "names are not part of the property (number and order are): a main-graph input/output renamed by OutputFixPass "
     "(which has to separate two values that shared one name) is exempt, by any other pass it is a failure",
@@ -424,9 +424,6 @@ def correspond(part, case_id, ir_model_before_factory, seq_names):
         if lean_name is None:
             close_segment(before)
         skip = None
-        if lean_name is not None and lean_name.startswith("cse") and enc.string_tensor_attr:
-            # key of a string-tensor attribute = object addresses (numpy object array): not modelled
-            skip = "cse_string_tensor_attr"
         if lean_name == "dce" and enc.has_ghost_uses():
             # Value.uses() still lists nodes of subgraphs of nodes removed by an earlier pass of this
             # sequence; that history is not part of the encoded model
@@ -1379,6 +1376,15 @@ class _Gen:
         out_kinds = [r.choice(pool) for _ in range(r.choice([1, 1, 2]))]
         tg = self.branch(sc, out_kinds, "then")
         eg = self.branch(sc, out_kinds, "else")
+        fk = [k for k in ("F3", "F23") if self.visible(sc, k)]
+        if fk and r.random() < 0.4:
+            # sibling scopes may reuse a name: the same local name with DIFFERENT types in the two branches
+            x = r.choice(self.visible(sc, r.choice(fk)))
+            shared = self.fresh("s")
+            tg.node.append(oh.make_node("Cast", [x], [shared], to=_I, name=self.fresh("n")))
+            eg.node.append(oh.make_node("Neg", [x], [shared], name=self.fresh("n")))
+            self.consumed.add(x)
+            self.feat.add("sibling_same_name")
         self.emit(sc, "If", [cond], out_kinds, {"then_branch": tg, "else_branch": eg})
 
     def a_loop(self, sc):
@@ -1575,10 +1581,16 @@ class _Gen:
             self.feat.add("unused_input")
         for _ in range(r.choice([0, 1, 1, 2])):
             k = r.choice(["F3", "F23", "F0", "I3", "F33"])
-            w = self.new_init(main, k)
-            if r.random() < 0.2:
+            content = self.content(k)
+            w = self.new_init(main, k, content)
+            if r.random() < 0.25:
                 main.inputs.append((w, k))
                 self.feat.add("init_is_input")
+                if r.random() < 0.6:
+                    # a later initializer with the same tensor: it may be merged into a canonical copy, never into
+                    # the one a caller can override
+                    self.new_init(main, k, content)
+                    self.feat.add("init_input_dup")
         if r.random() < 0.3:
             k = r.choice(["F3", "F23", "F0", "I3"])
             content = self.content(k)
@@ -1672,12 +1684,22 @@ def gen_model(rng: random.Random, size: int) -> onnx.ModelProto:
     return gen_model_ex(rng, size)[0]
 
 
-def gen_inputs(rng: random.Random, model_proto: onnx.ModelProto) -> dict[str, np.ndarray]:
-    """Values for every graph input that is not an initializer."""
-    inits = {i.name for i in model_proto.graph.initializer}
+OVERRIDE = "@override:"  # feed key prefix: a value supplied for an initializer-backed graph input
+
+
+def gen_inputs(rng: random.Random, model_proto: onnx.ModelProto, override: bool = False) -> dict[str, np.ndarray]:
+    """Values for every graph input that is not an initializer; with `override` also a value (different from the
+    default) for every graph input that is backed by an initializer, under the key OVERRIDE + name."""
+    inits = {i.name: i for i in model_proto.graph.initializer}
     feeds = {}
     for inp in model_proto.graph.input:
         if inp.name in inits:
+            if override and inits[inp.name].data_type != _S:
+                arr = onh.to_array(inits[inp.name])
+                if arr.dtype == np.bool_:
+                    feeds[OVERRIDE + inp.name] = np.logical_not(arr)
+                else:
+                    feeds[OVERRIDE + inp.name] = (arr + np.asarray(rng.choice([1, 2, -3]), dtype=arr.dtype)).astype(arr.dtype)
             continue
         tt = inp.type.tensor_type
         shape = tuple(d.dim_value if d.HasField("dim_value") else 2 for d in tt.shape.dim)
@@ -1967,11 +1989,22 @@ def _evaluate(proto: onnx.ModelProto, inputs: list[dict]) -> list:
     # the property is positional: when a pass renamed a model input (only OutputFixPass may, see RENAME_EXEMPT)
     # the k-th supplied tensor goes to the k-th non-initializer input
     names = [n for n, _ in _io_sig(proto)["inputs"]]
+    all_inputs = {i.name for i in proto.graph.input}
+    init_names = {i.name for i in proto.graph.initializer}
 
     def feed(feeds: dict) -> dict:
-        if set(feeds) != set(names) and len(feeds) == len(names):
-            return dict(zip(names, feeds.values()))
-        return feeds
+        free = {k: v for k, v in feeds.items() if not k.startswith(OVERRIDE)}
+        if set(free) != set(names) and len(free) == len(names):
+            free = dict(zip(names, free.values()))
+        for k, v in feeds.items():
+            if not k.startswith(OVERRIDE):
+                continue
+            n = k[len(OVERRIDE):]
+            if n not in all_inputs and n not in init_names and n + "_orig" in all_inputs | init_names:
+                n = n + "_orig"  # OutputFixPass renamed the input (see RENAME_EXEMPT)
+            if n in all_inputs or n in init_names:
+                free[n] = v  # (an initializer that is no longer listed as input keeps the caller's value here)
+        return free
 
     # feeds are copied: some reference operators (BatchNormalization in training mode) write into their inputs
     return [[_canon_out(a) for a in sess.run(None, {k: np.array(v, copy=True) for k, v in feed(feeds).items()})]
@@ -2789,7 +2822,7 @@ def _work(chunk: tuple) -> dict:
         except Exception as e:  # noqa: BLE001 - generator bug: visible in the histogram, never a finding
             part.count("gen_error:" + type(e).__name__)
             continue
-        inputs = [gen_inputs(rng, proto) for _ in range(2)]
+        inputs = [gen_inputs(rng, proto), gen_inputs(rng, proto, override=True)]
         seqs = gen_sequences(rng, N_RANDOM_SEQ)
         raw = proto.SerializeToString()
         sha = _sha(raw)
